@@ -1,15 +1,68 @@
-"""C08  Multiplier and squarer generators compute exact products
+"""C08  Multiplier and squarer generators compute exact products.
 
-P: (deductive obligations for this property are added in vlib/props/C08.py as they are built)
-B: vlib/bounded/C08.py (bounded stand-in; never counted as proved)."""
+P (all operand values, all host circuits, operand aliasing; width-bounded): add_mul (default), add_mul_alter,
+   add_mul_karatsuba(_with_efficient_sum), add_mul_dadda, add_mul_wallace, add_mul_pow2_m1 and add_square for
+   the small widths at which symbolic execution of the real generators stays tractable; the work lists
+   (SortedList) are executed for every tie-breaking order the label comparison could produce.
+B: all modes at widths up to 16 bits total, wide Karatsuba/squarer shapes with corner operands (vlib/bounded/C08.py)."""
+import z3
+
 from .. import env
-from .common import STD_TRUSTED, STD_ASSUME, run_bounded
+from ..pyvc.prove import Prover
+from ..pyvc.values import VList
+from .arith_common import HostGadget, val_le, b2i
+from .common import new_interp, finish_refuted, canary, STD_TRUSTED, STD_ASSUME, run_bounded
 
-LEVEL = 'exploration'
+LEVEL = 'other'
+MUL = 'cirbo/synthesis/generation/arithmetics/multiplication.py'
+SQ = 'cirbo/synthesis/generation/arithmetics/square.py'
+
+
+def spec_mul(n, m, be=False):
+    def f(xs, rs, st):
+        a, b = xs[:n], xs[n:n + m]
+        r = rs
+        if be:
+            a, b, r = a[::-1], b[::-1], rs[::-1]
+        yield ('a*b', val_le(r) == val_le(a) * val_le(b))
+        want = n + m if (n > 1 and m > 1) else n + m - 1
+        yield ('length', z3.BoolVal(len(rs) == want))
+    return f
+
+
+def spec_sq(n):
+    def f(xs, rs, st):
+        yield ('a^2', val_le(rs) == val_le(xs) * val_le(xs))
+        yield ('length', z3.BoolVal(len(rs) == (2 * n if n > 1 else 1)))
+    return f
+
+
+def contracts(quick):
+    cs = []
+    shapes = [(1, 1), (1, 2), (2, 1), (2, 2)] + ([] if quick else [(2, 3), (3, 2)])
+    fns = ['add_mul', 'add_mul_alter', 'add_mul_karatsuba', 'add_mul_karatsuba_with_efficient_sum', 'add_mul_dadda', 'add_mul_wallace', 'add_mul_pow2_m1']
+    for fn in fns:
+        for n, m in shapes:
+            cs.append(HostGadget(MUL, fn, n + m, spec_mul(n, m), label=f'{fn}/{n}x{m}', shape=(n, m)))
+    cs.append(HostGadget(MUL, 'add_mul', 4, spec_mul(2, 2, True), label='add_mul/2x2/be', shape=(2, 2), kwargs={'big_endian': True}))
+    for n in (1, 2):
+        cs.append(HostGadget(SQ, 'add_square', n, spec_sq(n), label=f'add_square/n{n}'))
+    return cs
 
 
 def run(rep):
     quick = env.TIER != 'thorough'
-    rep.trusted_base = list(STD_TRUSTED)
+    rep.trusted_base = list(STD_TRUSTED) + ['abstract circuit model vlib/pyvc/circuit_model.py', 'model of sortedcontainers.SortedList (ascending; label ties explored both ways)']
+    for a in STD_ASSUME:
+        rep.assume(a)
+    rep.assume('width-bounded P (operands of 1..2 bits, 3 in thorough): universal in operand values, host circuit and aliasing; every larger width, and the recursion of Karatsuba / split squarer, is bounded-only')
+    it = new_interp()
+    pv = Prover(rep, it, 'C08')
+    for c in contracts(quick):
+        pv.run_contract(c)
+    a, b = z3.Bools('a b')
+    canary(rep, pv, 'C08/canary/and-is-sum', [], b2i(z3.And(a, b)) == b2i(a) + b2i(b))
+    refuted = pv.discharge(env.NPROC)
+    finish_refuted(rep, pv, refuted)
     run_bounded(rep, 'C08', quick)
-    rep.extra['explanation'] = 'bounded stand-in only in this build'
+    rep.extra['explanation'] = 'small-width products proved on an abstract host circuit from the real generators; all other widths: bounded stand-in (exhaustive values up to 16 bits total, corner values at recursion widths).'
